@@ -52,6 +52,20 @@ try:
     except TypeError: pass
     try: gw.remote_exec(ok_func, a=object()); bad.append("unserialisable kwarg accepted")
     except DumpError: pass
+    # a module source: what is sent is the file's CURRENT content, also when size and mtime are those of the version run before
+    import importlib.util, tempfile
+    d = tempfile.mkdtemp(prefix="c06mod_")
+    mp = os.path.join(d, "c06_probe_mod.py")
+    open(mp, "w").write("channel.send('first version')\n")
+    st0 = os.stat(mp)
+    spec_ = importlib.util.spec_from_file_location("c06_probe_mod", mp)
+    mod = importlib.util.module_from_spec(spec_)
+    got1 = gw.remote_exec(mod).receive(10)
+    open(mp, "w").write("channel.send('other version')\n")
+    os.utime(mp, ns=(st0.st_atime_ns, st0.st_mtime_ns))
+    got2 = gw.remote_exec(mod).receive(10)
+    if (got1, got2) != ("first version", "other version"): bad.append(f"remote_exec(module) after an in-place rewrite with equal size and mtime ran {got2!r} (first run {got1!r})")
+    import shutil; shutil.rmtree(d, ignore_errors=True)
     # stdout / stderr / raw fd writes never enter the protocol stream
     ch = gw.remote_exec("import os, sys\nprint('x' * 100000)\nsys.stderr.write('')\nos.write(1, b'Y' * 70000)\nsys.stdout.flush()\nchannel.send('still-fine')")
     if ch.receive(20) != "still-fine": bad.append("stdio writes disturbed the protocol")
@@ -61,4 +75,4 @@ except Exception as e:
     bad.append(f"scenario crashed: {type(e).__name__}: {e!s:.80}")
 finally:
     group.terminate(timeout=3)
-print(json.dumps({"failed": bool(bad), "results": bad[:5], "n": 18}))
+print(json.dumps({"failed": bool(bad), "results": bad[:5], "n": 19}))
